@@ -19,7 +19,8 @@ META = {
         "names, missing modules, module None) plus harmless real names (builtins.object/len/print/eval, os.system, "
         "subprocess.Popen, taskiq.serialization.ExceptionRepr) x args in {(), ('x',), (1, 2)} x placement {top level, "
         "exc_cause, exc_context, cause of cause, context of cause} x loader {exception_to_python(ExceptionRepr), "
-        "TaskiqResult.model_validate(dict), TaskiqResult.model_validate_json}. Monitors: every planted callable/class records "
+        "TaskiqResult.model_validate(dict), TaskiqResult.model_validate_json, and an _UnpickleableExceptionWrapper instance carrying the "
+        "same names (what a pickled result holds)}. Monitors: every planted callable/class records "
         "calls and instantiations; a sys.meta_path recorder and a sys.modules key diff detect imports. Oracle: the outcome is a "
         "BaseException instance or SecurityError/ValidationError; zero recorded calls except constructors of BaseException "
         "subclasses; no import attempt; an unresolvable name yields a synthetic Exception subclass of that name. "
@@ -174,10 +175,14 @@ TARGETS: List[Tuple[Optional[str], str, str]] = [
     ("antigravity", "geohash", "unresolved-if-not-loaded"),
     (None, "Anything", "unresolved"),
     (None, "os.system", "unresolved"),
+    (None, "print", "unresolved"),
+    (None, "object", "unresolved"),
+    (None, "ValueError", "unresolved"),
+    (None, "trap_fn", "unresolved"),
 ]
 ARGS: List[Tuple[Any, ...]] = [(), ("x",), (1, 2)]
 PLACEMENTS = ["top", "cause", "context", "cause.cause", "cause.context"]
-LOADERS = ["exception_to_python", "model_validate", "model_validate_json"]
+LOADERS = ["exception_to_python", "model_validate", "model_validate_json", "wrapper_instance"]
 
 
 def payload(mod: Optional[str], typ: str, args: Tuple[Any, ...]) -> Dict[str, Any]:
@@ -199,6 +204,11 @@ def wrap(p: Dict[str, Any], placement: str) -> Dict[str, Any]:
     if placement == "cause.cause":
         return benign(exc_cause=benign(exc_cause=p))
     return benign(exc_cause=benign(exc_context=p))
+
+
+def _planted_classes() -> Any:
+    m = sys.modules["vplant"]
+    return {v for v in vars(m).values() if isinstance(v, type)} | {ValueError, KeyboardInterrupt}
 
 
 class ImportSpy:
@@ -229,6 +239,8 @@ def run_case(target: Tuple[Optional[str], str, str], args: Tuple[Any, ...], plac
 
     _plant()
     mod, typ, kind = target
+    if loader == "wrapper_instance":
+        kind = "wrapper"
     if kind == "unresolved-if-not-loaded":
         kind = "unresolved" if mod not in sys.modules else "skip"
         if kind == "skip":
@@ -241,7 +253,24 @@ def run_case(target: Tuple[Optional[str], str, str], args: Tuple[Any, ...], plac
     out: Any = None
     err: Any = None
     try:
-        if loader == "exception_to_python":
+        if loader == "wrapper_instance":
+            # what a pickled result carries for an un-picklable error: restoring it must build a
+            # synthetic class from the recorded names, never look the name up and call it
+            from taskiq.serialization import _UnpickleableExceptionWrapper
+
+            w = _UnpickleableExceptionWrapper(mod or "vplant_none", typ, tuple(args), "text")
+            if placement == "top":
+                out = exception_to_python(w)
+            else:
+                d2 = wrap(payload("builtins", "RuntimeError", ("x",)), placement)
+                # put the wrapper instance where the crafted payload would be
+                cur = d2
+                parts = placement.split(".")
+                for part in parts[:-1]:
+                    cur = cur["exc_cause" if part == "cause" else "exc_context"]
+                cur["exc_cause" if parts[-1] == "cause" else "exc_context"] = w
+                out = exception_to_python(ExceptionRepr.model_validate(d2))
+        elif loader == "exception_to_python":
             out = exception_to_python(ExceptionRepr.model_validate(doc))
         elif loader == "model_validate":
             out = TaskiqResult.model_validate({"is_err": True, "return_value": None, "execution_time": 0.1, "error": doc}).error
@@ -288,6 +317,11 @@ def run_case(target: Tuple[Optional[str], str, str], args: Tuple[Any, ...], plac
         acc.violation("nested-link-lost", f"loading {case}: link {placement} is missing on {out!r}", rp)
         return
     last = typ.split(".")[-1]
+    if kind == "wrapper":
+        acc.count("synthetic_classes")
+        if not (isinstance(inner, Exception) and type(inner).__name__ == typ and type(inner) not in _planted_classes()):
+            acc.violation("wrapper-restored-to-real-object", f"loading {case}: restoring the wrapper gave {inner!r} of class {type(inner).__module__}.{type(inner).__qualname__}", rp)
+        return
     if kind == "unresolved":
         acc.count("synthetic_classes")
         if not (isinstance(inner, Exception) and type(inner).__name__ == typ and tuple(inner.args) == tuple(args)):
